@@ -116,6 +116,7 @@ func (f LeveldbDiskStorage) Delete(tbl *btapb.Table) {
 	if err := os.Remove(path + ".table.proto"); err != nil && !os.IsNotExist(err) {
 		f.errLog(err, "os.Remove %q", path+".table.proto")
 	}
+	verifPoint("Delete.afterMetaRemove")
 	if err := os.RemoveAll(path); err != nil {
 		f.errLog(err, "os.RemoveAll %q", path)
 	}
